@@ -353,15 +353,15 @@ func c10Image(p *Prog, r *Report) {
 	forEachInstr(hf, func(_ *ssa.BasicBlock, _ int, in ssa.Instruction) {
 		if c, ok := in.(*ssa.Call); ok && c != cp {
 			rf := refOf(c.Common())
-			if rf.Recv == "File" && rf.Pkg == "os" && (rf.Name == "Write" || rf.Name == "WriteString" || rf.Name == "ReadFrom" || rf.Name == "WriteAt") {
+			if rf.Recv == "File" && rf.Pkg == "os" && (rf.Name == "Write" || rf.Name == "WriteString" || rf.Name == "ReadFrom" || rf.Name == "WriteAt" || rf.Name == "Truncate") {
 				other++
 			}
-			if rf.is("os", "", "WriteFile") || rf.is("io", "", "CopyN") || rf.is("io", "", "CopyBuffer") {
+			if rf.is("os", "", "WriteFile") || rf.is("io", "", "CopyN") || rf.is("io", "", "CopyBuffer") || rf.is("os", "", "Truncate") {
 				other++
 			}
 		}
 	})
-	r.Check(other == 0, "D4-image", fa.key+":single-writer", p.Pos(hf.Pos()), "io.Copy is the only writer", "the file is also written outside the bounded copy")
+	r.Check(other == 0, "D4-image", fa.key+":single-writer", p.Pos(hf.Pos()), "io.Copy is the only writer", "the file is also written (or sized: Truncate gives it the length the untrusted tar header claims) outside the bounded copy: more than MaxFileBytes can end up on disk")
 	n := func(v ssa.Value) bool {
 		ex, ok := v.(*ssa.Extract)
 		return ok && ex.Tuple == ssa.Value(cp) && ex.Index == 0
